@@ -1,8 +1,97 @@
+(* C19 — rate limiter admits no more than the contract and never starves a subscriber.
+   Statements only; proofs are in Proofs/TcQosProofs.v.  Subject: Model/TcQos.v (bpf/qos_ratelimit.c as
+   coded: 64-bit wraps, per-packet floor) and Model/QosMgr.v (pkg/qos/manager.go SetSubscriberQoS);
+   the executable property monitor is Model/TcQosSpec.v. *)
 From Coq Require Import NArith List.
-From Verif Require Import Base.Word Model.TcQos Model.QosMgr Model.TcQosSpec Proofs.TcQosProofs.
+From Verif Require Import Base.Word Base.Check Model.TcQos Model.QosMgr Model.TcQosSpec Proofs.TcQosProofs.
 Import ListNotations.
 Local Open Scope N_scope.
 
-Theorem C19_rate_zero_step : forall t now len, rate t = 0 -> tb_step t now len = (t, true).
-Proof. exact rate_zero_step. Qed.
-Print Assumptions C19_rate_zero_step.
+(* ---- clause 0: upper bound — FULL.  For every bucket configuration with tokens <= burst (wf), every
+   rate > 0, every arrival sequence with a non-decreasing clock below 2^64, every history [pre] and every
+   window that starts with the packet at [now]: bytes admitted in the window
+       <= burst + (rate/8) * (window length in ns) / 10^9
+   (run = fold of token_bucket_check over (now, len) pairs, 64-bit product wrap and per-packet floor included) *)
+Theorem C19_admitted_upper_bound : forall t pre now len rest,
+  wf t -> rate t <> 0 -> mono (last t) (pre ++ (now, len) :: rest) ->
+  admitted_after t pre ((now, len) :: rest) <= burst t + (last_time now rest - now) * (rate t / 8) / G.
+Proof. exact admitted_upper_bound. Qed.
+Print Assumptions C19_admitted_upper_bound.
+
+(* ---- clause 2: rate 0 = unlimited — FULL, for the bucket and for the whole TC program *)
+Theorem C19_rate_zero_unlimited : forall pks t, rate t = 0 ->
+  run t pks = (t, fold_right (fun p a => snd p + a) 0 pks).
+Proof. exact rate_zero_admits_all. Qed.
+Print Assumptions C19_rate_zero_unlimited.
+
+Theorem C19_rate_zero_unlimited_prog : forall d m f plen now pin key v t,
+  qos_lookup d m f = LHit key v t -> rate t = 0 ->
+  exists p, qos_prog d m f plen now pin = (m, VRet TC_ACT_OK p, []).
+Proof. exact rate_zero_prog. Qed.
+Print Assumptions C19_rate_zero_unlimited_prog.
+
+(* ---- clause 1: no starvation — REFUTED on the faithful Model.
+   Statement: the monitor (TcQosSpec.judge, clause 1: credit discarded at the cap while the subscriber is
+   being refused stays <= burst + 65535 bytes) never rejects the Model's own trace. *)
+Theorem C19_no_starvation_refuted : ~ no_starvation_statement.
+Proof. exact no_starvation_refuted. Qed.
+Print Assumptions C19_no_starvation_refuted.
+
+(* witness (i): 8 kbit/s, 100-byte packets every 999 999 ns: rejected (clause 1) inside the Rep op *)
+Theorem C19_starvation_by_truncation : model_verdict starve_trunc_ops = (2, 2).
+Proof. exact starve_trunc_rejected. Qed.
+Print Assumptions C19_starvation_by_truncation.
+
+(* ... and it is permanent: with every gap shorter than one token period nothing is admitted, for any
+   number of packets (rate 8 kbit/s: any gap < 1 ms, e.g. the 0.5 ms of the design note) *)
+Theorem C19_starved_forever : forall n t gap len,
+  wf t -> rate t <> 0 -> gap * rate8 t < G -> tokens t < len -> last t + N.of_nat n * gap < W64 ->
+  snd (run t (arrivals n (last t) gap len)) = 0.
+Proof. exact starved_forever. Qed.
+Print Assumptions C19_starved_forever.
+
+(* witness (ii): 100 Gbit/s, one gap of 1.4757 s: elapsed * (rate/8) wraps past 2^64 *)
+Theorem C19_starvation_by_product_wrap : exists ops, snd (model_verdict ops) = 2 /\
+  exists t now, refill_product t now >= W64 /\ In (PutRaw Egress sub1 (tb_encode t)) ops.
+Proof. exact no_starvation_refuted_by_wrap. Qed.
+Print Assumptions C19_starvation_by_product_wrap.
+
+(* ---- clause 1 under the decidable guard [exact_gaps] (rate a multiple of 8, every gap a whole number of
+   token periods, product below 2^64): the monitor, run in lockstep with the bucket on the Model's own
+   verdicts, never reports clause 1 — for every packet sequence and every synchronised contract. *)
+Theorem C19_no_starvation_partial : forall pks t c,
+  wf t -> rate t <> 0 -> rate t = 8 * rate8 t -> sync t c -> exact_gaps (last t) (rate8 t) pks ->
+  judge_run c t pks <> Some 1.
+Proof. exact no_starvation_partial. Qed.
+Print Assumptions C19_no_starvation_partial.
+
+Example C19_guard_satisfiable :
+  let t := {| tokens := 1500; last := 0; rate := 8000; burst := 1500; prio := 0 |} in
+  wf t /\ rate t = 8 * rate8 t /\
+  exact_gaps (last t) (rate8 t) [(1000000, 100); (2000000, 100); (1000000000, 1500)] /\
+  sync t (new_contract Egress sub1 8000 1500 None 1500 (Some 0)).
+Proof. exact exact_guard_satisfiable. Qed.
+
+(* ---- clause 3: the policy set through the control plane is the one enforced — REFUTED.
+   [enforced s d ip r b]: the data path, given a frame of subscriber ip, finds a full bucket with rate r and
+   burst b.  Refuted by the key byte order (any non-palindromic address) and, independently, by the ingress
+   burst (policy burst ignored). *)
+Theorem C19_policy_enforced_refuted : ~ policy_enforced_statement.
+Proof. exact policy_enforced_refuted. Qed.
+Print Assumptions C19_policy_enforced_refuted.
+
+Theorem C19_policy_ingress_burst_refuted :
+  ~ enforced (fst (fst (step init (SetQoS false [7; 7; 7; 7] 80000 80000 1500 0)))) Ingress [7; 7; 7; 7] 80000 1500.
+Proof. exact policy_enforced_refuted_ingress_burst. Qed.
+Print Assumptions C19_policy_ingress_burst_refuted.
+
+(* guard: palindromic address, default burst, rates below 2^35 bit/s — from ANY prior state *)
+Theorem C19_policy_enforced_partial : forall s viap ip down up pr,
+  palindromic ip -> down < 34359738368 -> up < 34359738368 -> pr < 256 ->
+  let s' := fst (fst (step s (SetQoS viap ip down up 0 pr))) in
+  enforced s' Egress ip down (contract_burst down 0) /\ enforced s' Ingress ip up (contract_burst up 0).
+Proof. exact policy_enforced_partial. Qed.
+Print Assumptions C19_policy_enforced_partial.
+
+Example C19_policy_guard_satisfiable : palindromic [10; 1; 1; 10] /\ contract_burst 50000000 0 = 6250000.
+Proof. split; [exists 10, 1; repeat split; reflexivity|reflexivity]. Qed.
